@@ -4,8 +4,8 @@ import numpy as np
 from pmc.refs import netad
 
 PROPERTY = 'C02'
-RULE = ("program enumeration: every type-correct sequence of k modules from a typed alphabet of 16 module kinds "
-        "(user-defined Sq, Lin, Mul, Fan(two outputs), SMul, slice-consuming SlIn, slice-writing SlOut, and library "
+RULE = ("program enumeration: every type-correct sequence of k modules from a typed alphabet of 20 module kinds "
+        "(user-defined Sq, Lin, Mul, Fan(two outputs), SMul, Diff, Add3 (one sensitivity object for three inputs), slice-consuming SlIn, RevIn, PermIn, slice-writing SlOut, and library "
         "EinSum('i,i->'), ConcatSignal, MakeComplex, ComplexNorm, RealPart, ImagPart), every wiring to any earlier signal (fan-out, diamonds, "
         "the same signal twice), every contiguous grouping into a nested Network, every seed subset of size <= 2 over all "
         "produced signals (sinks and intermediates); schedule response/seed/sensitivity, reset, and the same again. "
@@ -83,7 +83,13 @@ def classes():
             g = np.zeros_like(self.sig_in[0].state)
             g[0], g[1] = dy, -dy
             return g
-    _cls.update(Sq=Sq, Lin=Lin, Mul=Mul, Fan=Fan, SMul=SMul, Diff=Diff, pym=pym)
+    class Add3(pym.Module):
+        def _response(self, a, b, c_):
+            return a + b + c_
+
+        def _sensitivity(self, dy):
+            return dy, dy, dy      # one array object for all inputs (what additive modules do)
+    _cls.update(Sq=Sq, Lin=Lin, Mul=Mul, Fan=Fan, SMul=SMul, Diff=Diff, Add3=Add3, pym=pym)
     return _cls
 
 
@@ -117,6 +123,8 @@ def build(prog, a0, b0):
             m = c['Sq'](si, base[1:3])
         elif name == 'Diff3':
             m = c['Diff'](si, outs)
+        elif name == 'Add3':
+            m = c['Add3'](si, outs)
         elif name == 'RevIn':
             m = c['Sq'](si[0][::-1], outs)
         elif name == 'PermIn':
